@@ -521,6 +521,25 @@ var attackOps = []attackOp{
 		}
 		return root
 	}},
+	{"reorder-attributes", func(s *xswScript, root, evil *etree.Element) *etree.Element {
+		// attribute order is not part of the canonical form
+		for _, e := range allElems(root) {
+			if len(e.Attr) > 1 && s.c.chance(0.5) {
+				for i, j := 0, len(e.Attr)-1; i < j; i, j = i+1, j-1 {
+					e.Attr[i], e.Attr[j] = e.Attr[j], e.Attr[i]
+				}
+			}
+		}
+		return root
+	}},
+	{"comments-everywhere", func(s *xswScript, root, evil *etree.Element) *etree.Element {
+		for _, e := range allElems(root) {
+			if s.c.chance(0.3) {
+				insertAt(e, etree.NewComment(s.c.pick("", "x", "y", " Assertion ")), s.c.rng.Intn(len(e.Child)+1))
+			}
+		}
+		return root
+	}},
 	{"procinst-in-assertion", func(s *xswScript, root, evil *etree.Element) *etree.Element {
 		if a := firstAssertion(root); a != nil {
 			insertAt(a, etree.NewProcInst("evil", "x"), 1)
